@@ -138,7 +138,7 @@ Print Assumptions C01_matrix_operators_are_linear.
         the probe cases of tools/props/C01.py; known_findings.d/C01-*.json) ---- *)
 Definition idop : vec QcS -> vec QcS := fun v => v.
 Definition prm0 (maxiter : nat) (tol : QcS) (ca : bool) : @kprm QcS :=
-  mkPrm maxiter tol (qc 0 1) false ca 2 false (qc 1 1).
+  mkPrm maxiter tol (qc 0 1) false ca 2 false (qc 1 1) 0 true 2 (qc 0 1) true.
 Definition bs_junk0 : @bs_ws QcS := mkBsWs [] [] [] [] [] [] [].
 Definition cg_junk0 : @cg_ws QcS := mkCgWs [] [] [] [].
 
